@@ -1193,6 +1193,41 @@ class AbelianArray(BlockBase):
         """The number of dimensions/indices."""
         return len(self._indices)
 
+    def _binary_blockwise_op(self, other, fn, missing=None, inplace=False):
+        xy = super()._binary_blockwise_op(
+            other, fn, missing=missing, inplace=inplace
+        )
+
+        if (missing == "outer") and isinstance(other, AbelianArray):
+            # the result can hold sectors only present in ``other``: make
+            # sure its indices also list the charges of those, e.g. when the
+            # operands are results of contractions that dropped different
+            # charges from otherwise matching indices
+            new_indices = None
+            for ax, (ix, iy) in enumerate(zip(xy.indices, other.indices)):
+                if ix.chargemap == iy.chargemap:
+                    continue
+                if (
+                    (ix.subinfo is not None)
+                    or (iy.subinfo is not None)
+                    or not dicts_dont_conflict(ix.chargemap, iy.chargemap)
+                ):
+                    raise ValueError(
+                        f"Indices on axis {ax} are not compatible for "
+                        f"blockwise addition: {ix} and {iy}."
+                    )
+                if new_indices is None:
+                    new_indices = list(xy.indices)
+                new_indices[ax] = ix.copy_with(
+                    chargemap=dict(
+                        sorted({**ix.chargemap, **iy.chargemap}.items())
+                    )
+                )
+            if new_indices is not None:
+                xy.modify(indices=tuple(new_indices))
+
+        return xy
+
     def sync_charges(self, inplace=False):
         """Given the blocks currently present, adjust the index chargemaps to
         match only those charges present in at least one sector.
